@@ -47,6 +47,20 @@ func c16Package(r *rand.Rand, id string, size int) (*Prog, []c16Decl) {
 	p.Funcs = append([]*Func{mark}, p.Funcs...)
 	// a package function that has the name of a builtin: it is in scope in the whole package wherever
 	// it is declared (Go: a package-level declaration shadows the universe scope)
+	// two struct types that refer to each other (in whatever order they end up, one reference is forward)
+	if size != 0 {
+		ta, tb := PtrTo("NodeA"), PtrTo("NodeB")
+		p.Structs = append(p.Structs, &StructDef{Name: "NodeA", Fields: []string{"B", "V"}, FTypes: []*Ty{tb, TInt}},
+			&StructDef{Name: "NodeB", Fields: []string{"A", "W"}, FTypes: []*Ty{ta, TInt}})
+		link := &Func{Name: "link", Results: []*Ty{TInt}, Body: []*S{
+			dcl("a", newS("NodeA", "V", lit(TInt, 1))),
+			dcl("b", newS("NodeB", "A", v("a", ta), "W", lit(TInt, 2))),
+			asg(fld(v("a", ta), "B", tb), v("b", tb)),
+			ret(bin("+", TInt, fld(fld(v("a", ta), "B", tb), "W", TInt), fld(fld(v("b", tb), "A", ta), "V", TInt)))}}
+		p.Funcs = append([]*Func{link}, p.Funcs...)
+		mainFn := p.Funcs[len(p.Funcs)-1]
+		mainFn.Body = append([]*S{pr(sS("link"), &E{K: "call", Fn: "link", Ty: TInt, NRes: 1})}, mainFn.Body...)
+	}
 	customPrint := false
 	if size != 0 && r.Intn(2) == 0 {
 		customPrint = true
@@ -149,7 +163,7 @@ func c16Layouts(c *Ctx, kinds []string, limit int) [][][]int {
 }
 
 func checkC16(c *Ctx) {
-	c.Rule = "packages = seeded random packages (struct types, functions, methods, constants built from earlier constants, variable initialisers with visible side effects, a package function named like a builtin (print / println), locals and parameters shadowing package-level names); layouts = for packages with <= 7 declarations EVERY state reachable in DeclOrder.tla (all permutations of hoistable declarations x all splits into <= 3 files with the fixed items in order; a deterministic sample of them is loaded in the quick tier), for larger packages layouts sampled by TLC simulation; each layout is loaded as the top-level package or as a package imported by it (alternating); distinct_nontrivial = distinct (package, layout) pairs loaded"
+	c.Rule = "packages = seeded random packages (struct types incl. two that refer to each other, functions, methods, constants built from earlier constants, variable initialisers with visible side effects, a package function named like a builtin (print / println), locals and parameters shadowing package-level names); layouts = for packages with <= 7 declarations EVERY state reachable in DeclOrder.tla (all permutations of hoistable declarations x all splits into <= 3 files with the fixed items in order; a deterministic sample of them is loaded in the quick tier), for larger packages layouts sampled by TLC simulation; each layout is loaded as the top-level package or as a package imported by it (alternating); distinct_nontrivial = distinct (package, layout) pairs loaded"
 	c.Assumptions = []string{"MiniGo.tla gives the meaning of the canonical form and is calibrated against the Go toolchain on it", "file names are chosen so that their sorted order is the layout's file order"}
 	r := rand.New(rand.NewSource(c.Seed))
 	type pkg struct {
@@ -218,10 +232,15 @@ func checkC16(c *Ctx) {
 			// package clause p, reached from a main package that only calls p.Main
 			entry := "top-level package"
 			if li%2 == 1 {
-				entry = "imported package"
-				imp := map[string]string{"main/main.go": "package main\n\nimport \"p\"\n\nfunc Main() {\n\tp.Main()\n}\n"}
+				// (every other time under an import path of two elements)
+				path := "p"
+				if li%4 == 3 {
+					path = "lib/p"
+				}
+				entry = "imported package " + path
+				imp := map[string]string{"main/main.go": "package main\n\nimport \"" + path + "\"\n\nfunc Main() {\n\tp.Main()\n}\n"}
 				for name, src := range files {
-					imp["p/"+strings.TrimPrefix(name, "main/")] = strings.Replace(src, "package main\n", "package p\n", 1)
+					imp[path+"/"+strings.TrimPrefix(name, "main/")] = strings.Replace(src, "package main\n", "package p\n", 1)
 				}
 				files = imp
 			}
